@@ -163,6 +163,8 @@ Clauses(st, e) ==
      <<"C13_TracebackKept",          \* re-raising the same exception keeps its traceback
         (IsFinished(st, e) /\ Exp(st).kind = "E" /\ Exp(st).tb /\ e.a = 1 /\ e.xs = Exp(st).term) =>
             e.b = 1>>,
+     <<"C13_CallReturnsFuture",      \* f_map / f_flat_map / submit hand a future back whatever the input's outcome is
+        e.ev = "CallRaise" => FALSE>>,
      <<"C13_Compose",                \* mapping with g then h equals mapping with h after g
         (e.ev = "Result" /\ st.cfgd /\ e.f = 1 /\ Has(st.res, 0) /\ st.cancelled = {}) =>
             ((st.res[0][1] \/ e.s = "FINISHED") => (st.res[0] = ResOf(e)))>> >>
